@@ -18,7 +18,7 @@ programs of any shape and nesting), every world `w` (values, registered watchers
 and every amount of fuel; `r ≠ oof` / `r = ok` is the partial-correctness side condition.
 Event parameters are modelled (`Cfg.events`).  Class-level assignment runs the same code on the class
 object (the harness runs the programs at both levels).  Not modelled here (see DESIGN.md):
-Parameter-attribute (slot) watchers, kwargs mode.
+kwargs mode (`watch_values`).  Parameter-attribute (slot) watchers are modelled (`Stmt.setSlot`).
 -/
 import ParamVerif.Dispatch.Lemmas
 import ParamVerif.Dispatch.EqualLemmas
@@ -28,7 +28,7 @@ namespace ParamVerif.Dispatch
 /-- the watchers an assignment `p := v` (old value `old`) must invoke, in order: those registered
 for `p`, stably sorted by precedence, minus the changes-only ones when nothing changed -/
 def expectedFor (w : World) (p : Nat) (old v : Int) : List Watcher :=
-  (sortByPrec (regsFor w p)).filter (fun wt => passes w.trigger wt ⟨p, old, v⟩)
+  (sortByPrec (regsFor w p)).filter (fun wt => passes w.trigger wt { name := p, old := old, new := v })
 
 /-- **C03 (exactly once, in order, true old/new, typed).**  A non-batched assignment of a valid
 value that returns normally has invoked — directly, before returning — exactly the expected
@@ -39,16 +39,16 @@ theorem assignment_reaches_each_watcher_once (c : Cfg) (f : Nat) (w : World) (p 
     (hb : w.batch = false) (hok : (run c f (.setPlain p v) w).1 = .ok) :
     (callSigs (run c f (.setPlain p v) w).2.2).filter (fun s => !s.2.2) =
       (expectedFor w p (getVal w p) v).map
-        (fun wt => (wt.cb, [typed w.trigger wt ⟨p, getVal w p, v⟩], false)) := by
+        (fun wt => (wt.cb, [typed w.trigger wt { name := p, old := getVal w p, new := v }], false)) := by
   cases f with
   | zero => simp [run] at hok
   | succ f =>
     -- facts about the two sub-calls: the dispatch loop (in the world where the value is stored) and the flush
-    have hfl := flags c f (.dispatch (sortByPrec (regsFor w p)) ⟨p, getVal w p, v⟩) { w with vals := w.vals.set p v }
-    have hsh := dispatch_shape c ⟨p, getVal w p, v⟩ (sortByPrec (regsFor w p)) f { w with vals := w.vals.set p v } hb
+    have hfl := flags c f (.dispatch (sortByPrec (regsFor w p)) { name := p, old := getVal w p, new := v }) { w with vals := w.vals.set p v }
+    have hsh := dispatch_shape c { name := p, old := getVal w p, new := v } (sortByPrec (regsFor w p)) f { w with vals := w.vals.set p v } hb
     have hff := fun w2 => flush_sigs_not_direct (flush_only_flush_calls c f .flush w2 (Or.inl rfl))
     have hexp : expectedFor w p (getVal w p) v =
-        (sortByPrec (regsFor w p)).filter (fun wt => passes w.trigger wt ⟨p, getVal w p, v⟩) := rfl
+        (sortByPrec (regsFor w p)).filter (fun wt => passes w.trigger wt { name := p, old := getVal w p, new := v }) := rfl
     generalize hrun : run c (f+1) (.setPlain p v) w = out at hok ⊢
     simp only [run] at hrun
     split at hrun
@@ -58,7 +58,7 @@ theorem assignment_reaches_each_watcher_once (c : Cfg) (f : Nat) (w : World) (p 
         subst hrun
         have : regsFor w p = [] := List.isEmpty_iff.1 hempty
         simp [expectedFor, this, sortByPrec]
-      · generalize hd : run c f (.dispatch (sortByPrec (regsFor w p)) ⟨p, getVal w p, v⟩)
+      · generalize hd : run c f (.dispatch (sortByPrec (regsFor w p)) { name := p, old := getVal w p, new := v })
             { w with vals := w.vals.set p v } = d at hrun hfl hsh
         obtain ⟨r1, w2, o1⟩ := d
         simp only at hrun hfl hsh
@@ -77,6 +77,51 @@ theorem assignment_reaches_each_watcher_once (c : Cfg) (f : Nat) (w : World) (p 
           subst hrun
           simp only [callSigs_append, List.filter_append, hff w2, List.append_nil, hsh rfl, hexp]
           simp [List.filter_map, Function.comp_def]
+
+/-- **C03 (Parameter attributes).**  A non-batched assignment to a watched Parameter attribute
+(`obj.param.p.<slot> = v`) that returns normally has invoked — directly, before returning — every
+watcher registered for that attribute of that parameter that passes the changes-only filter, once
+each, in *registration* order, each with the single event carrying the attribute's old and new
+value. -/
+theorem slot_assignment_reaches_each_watcher_once (c : Cfg) (f : Nat) (w : World) (p k : Nat) (v : Int)
+    (hb : w.batch = false) (hok : (run c f (.setSlot p k v) w).1 = .ok) :
+    (callSigs (run c f (.setSlot p k v) w).2.2).filter (fun s => !s.2.2) =
+      ((regsForSlot w p k).filter (fun wt => passes w.trigger wt { name := p, old := getSlot w p k, new := v, what := k })).map
+        (fun wt => (wt.cb, [typed w.trigger wt { name := p, old := getSlot w p k, new := v, what := k }], false)) := by
+  cases f with
+  | zero => simp [run] at hok
+  | succ f =>
+    have hfl := flags c f (.dispatch (regsForSlot w p k) { name := p, old := getSlot w p k, new := v, what := k })
+      { w with slotVals := setSlotVal w.slotVals p k v }
+    have hsh := dispatch_shape c { name := p, old := getSlot w p k, new := v, what := k } (regsForSlot w p k) f
+      { w with slotVals := setSlotVal w.slotVals p k v } hb
+    have hff := fun w2 => flush_sigs_not_direct (flush_only_flush_calls c f .flush w2 (Or.inl rfl))
+    generalize hrun : run c (f+1) (.setSlot p k v) w = out at hok ⊢
+    simp only [run] at hrun
+    split at hrun
+    · rename_i hempty
+      subst hrun
+      have : regsForSlot w p k = [] := List.isEmpty_iff.1 hempty
+      simp [this]
+    · generalize hd : run c f (.dispatch (regsForSlot w p k) { name := p, old := getSlot w p k, new := v, what := k })
+          { w with slotVals := setSlotVal w.slotVals p k v } = d at hrun hfl hsh
+      obtain ⟨r1, w2, o1⟩ := d
+      simp only at hrun hfl hsh
+      cases r1 with
+      | oof => subst hrun; simp at hok
+      | raised e =>
+        have hb2 : w2.batch = false := by rw [(hfl (by simp)).1]; exact hb
+        simp only [hb2, Bool.false_eq_true, if_false] at hrun
+        subst hrun
+        generalize run c f .flush w2 = fl at hok
+        obtain ⟨r3, w3, o3⟩ := fl
+        cases r3 <;> simp [Res.andThen] at hok
+      | ok =>
+        have hb2 : w2.batch = false := by rw [(hfl (by simp)).1]; exact hb
+        simp only [hb2, Bool.false_eq_true, if_false] at hrun
+        subst hrun
+        simp only [callSigs_append, List.filter_append, hff w2, List.append_nil, hsh rfl]
+        simp [List.filter_map, Function.comp_def]
 
 /-- `obj.p = v` runs the ordinary setter `setPlain` for every parameter type; an Event parameter
 additionally resets itself afterwards, which adds nothing to the log.  So the theorem above speaks
@@ -120,7 +165,7 @@ theorem order_ascending_precedence (w : World) (p : Nat) (old v : Int) :
 /-- … and, among equal precedences, registration order. -/
 theorem order_then_registration (w : World) (p : Nat) (old v : Int) (k : Int) :
     (expectedFor w p old v).filter (fun x => x.precedence = k) =
-      ((regsFor w p).filter (fun x => x.precedence = k)).filter (fun wt => passes w.trigger wt ⟨p, old, v⟩) := by
+      ((regsFor w p).filter (fun x => x.precedence = k)).filter (fun wt => passes w.trigger wt { name := p, old := old, new := v }) := by
   unfold expectedFor
   rw [List.filter_filter, ← sortByPrec_stable k (regsFor w p), List.filter_filter]
   congr 1
@@ -189,7 +234,7 @@ theorem comparator_incomplete_outside_plain :
 def exCfg : Cfg := { bounds := [(some 0, some 9), (none, none)], bodies := [[.set 0 5]] }
 def exWorld : World :=
   { vals := [1, 2], batch := false, trigger := false, events := [], queued := [],
-    regs := [⟨0, [1], true, false, 1, 0, 0⟩, ⟨1, [1, 0], false, false, 0, 1, 1⟩, ⟨2, [0], true, true, 0, 1, 2⟩] }
+    regs := [mkW 0 [1] true false 1 0, mkW 1 [1, 0] false false 0 1, mkW 2 [0] true true 0 1] }
 
 example : exWorld.batch = false ∧ (run exCfg 50 (.setPlain 1 7) exWorld).1 = .ok := by decide
 -- watcher 1 (precedence 0) before watcher 0 (precedence 1); watcher 0's body assigns p0, dispatched depth-first
